@@ -12,7 +12,7 @@
    This file contains only pinned statements, each closed by [exact] of a lemma proved in
    Proofs/, followed by Print Assumptions; and Examples. *)
 From SC Require Import Lib.Prelude Lib.Int Lib.Host Model.Timelock Model.TimelockGhost
-  Proofs.Timelock Proofs.C08Final Run.C08 Proofs.C08Monitor.
+  Proofs.Timelock Proofs.C08Final Proofs.C08Exact Run.C08 Proofs.C08Monitor.
 
 (* Whenever an execute (execute_operation or set_execute_operation) of operation [o]
    succeeds, in any call sequence from a fresh contract:
@@ -144,6 +144,61 @@ Theorem C08_time_changes_nothing_stored :
 Proof. exact time_changes_nothing_stored. Qed.
 Print Assumptions C08_time_changes_nothing_stored.
 
+(* ---------------- follow-up: special parties, unusual values, aliasing ---------------- *)
+(* EXACTLY when each call succeeds (both directions).  The decision looks at the descriptor only
+   through its id and its predecessor field: no target (the timelock's own address, another
+   contract, an account), no function symbol, argument vector or salt is privileged, and every
+   delay from 0 to u32::MAX is treated alike. *)
+Theorem C08_call_succeeds_exactly_when :
+  forall (hash : op -> id) s c,
+    0 <= now (tls s) ->
+    (is_ok (snd (step hash s c)) = true <->
+     match c with
+     | Schedule o d =>
+         0 <= d <= MAXU32 /\ state_of (tls s) (hash o) = Unset /\
+         exists m, min_delay (tls s) = Some m /\ m <= d
+     | Execute o t =>
+         t = true /\ state_of (tls s) (hash o) = Ready /\ (pred o = 0%N \/ state_of (tls s) (pred o) = Done)
+     | SetExecute o =>
+         state_of (tls s) (hash o) = Ready /\ (pred o = 0%N \/ state_of (tls s) (pred o) = Done)
+     | Cancel i => state_of (tls s) i = Waiting \/ state_of (tls s) i = Ready
+     | SetMinDelay d => 0 <= d <= MAXU32
+     | Advance n => 0 <= n /\ now (tls s) + n <= MAXU32
+     end).
+Proof. exact call_succeeds_iff. Qed.
+Print Assumptions C08_call_succeeds_exactly_when.
+(* two descriptors with one id are interchangeable for schedule, and - with the same predecessor
+   field - for set_execute_operation: whole step (new state and outcome) *)
+Theorem C08_descriptor_matters_only_through_id :
+  forall (hash : op -> id) s o1 o2,
+    hash o1 = hash o2 ->
+    (forall d, step hash s (Schedule o1 d) = step hash s (Schedule o2 d)) /\
+    (pred o1 = pred o2 -> step hash s (SetExecute o1) = step hash s (SetExecute o2)).
+Proof. exact descriptor_only_through_id. Qed.
+Print Assumptions C08_descriptor_matters_only_through_id.
+(* every delay value alike: scheduled at ledger n >= 2 with delay d, the operation is Waiting at
+   exactly the ledgers below min(n + d, u32::MAX) and Ready at exactly the ledgers from it on
+   (d = 0: Ready at once; n + d > u32::MAX: Ready only at the very last ledger) *)
+Theorem C08_scheduled_ready_exactly_from :
+  forall (hash : op -> id) s o d k,
+    2 <= now (tls s) <= MAXU32 ->
+    is_ok (snd (step hash s (Schedule o d))) = true ->
+    0 <= k -> now (tls s) + k <= MAXU32 ->
+    let s' := fst (step hash (fst (step hash s (Schedule o d))) (Advance k)) in
+    (state_of (tls s') (hash o) = Ready <-> Z.min (now (tls s) + d) MAXU32 <= now (tls s) + k) /\
+    (state_of (tls s') (hash o) = Waiting <-> now (tls s) + k < Z.min (now (tls s) + d) MAXU32).
+Proof. exact scheduled_ready_exactly_from. Qed.
+Print Assumptions C08_scheduled_ready_exactly_from.
+(* aliasing: an operation whose predecessor field is its own id (not constructible with a real
+   hash, but nothing in the model forbids it) is never executed, by either entry path *)
+Theorem C08_self_predecessor_never_executes :
+  forall (hash : op -> id) n0 cs H1 e H2 o,
+    2 <= n0 <= MAXU32 ->
+    hist hash (init n0) cs = H1 ++ e :: H2 ->
+    executes (he_call e) = Some o -> pred o = hash o -> pred o <> 0%N -> he_ok e = false.
+Proof. exact self_predecessor_never_executes. Qed.
+Print Assumptions C08_self_predecessor_never_executes.
+
 (* The monitor run on the implementation's traces (Run/C08.v: the property over observed
    calls, outcomes and getter values only) accepts every run of the model, and the model's
    diff with itself is empty - for every start ledger >= 2, universe of ids and tags, and
@@ -187,3 +242,22 @@ Example C08_saturation :
   state_of (tls (run hash_pair s [Advance (MAXU32 - 11)])) (hash_pair a) = Waiting /\
   state_of (tls (run hash_pair s [Advance (MAXU32 - 10)])) (hash_pair a) = Ready.
 Proof. vm_compute. repeat split. Qed.
+
+(* an operation that targets the timelock itself (target 3 in the harness's numbering) behind an
+   external predecessor: refused until the predecessor is executed, then marked by set_execute_operation,
+   never twice *)
+Example C08_self_target_reachable :
+  let a := Op 1 0 1 0 0 in
+  let sfo := Op 3 9 7 (hash_pair a) 0 in
+  map he_ok (hist hash_pair (init 40)
+        [SetMinDelay 3; Schedule sfo 2; Schedule sfo 3; Schedule a 3; Advance 3; SetExecute sfo; Execute sfo false;
+         Execute a true; SetExecute sfo; SetExecute sfo; Execute sfo true])
+  = [true; false; true; true; true; false; false; true; true; false; false].
+Proof. vm_compute. reflexivity. Qed.
+(* a self-referential predecessor exists in the model (hash = constant 5) and blocks for ever *)
+Example C08_self_predecessor_blocks :
+  let h := fun _ : op => 5%N in
+  let o := Op 1 0 1 5 0 in
+  map he_ok (hist h (init 10) [SetMinDelay 0; Schedule o 0; Execute o true; SetExecute o; Advance 100; Execute o true])
+  = [true; true; false; false; true; false].
+Proof. vm_compute. reflexivity. Qed.
